@@ -7,6 +7,7 @@ import common as c
 def normalize(src, dst):
     """Recorded histories -> the fixed record shape Trace_KBLin.tla reads. Returns (n, hung indices, version mismatches)."""
     n, hung, badv = 0, [], []
+    panicked = []
     raw = []
     with open(dst, "w") as out:
         for ln in open(src):
@@ -16,6 +17,8 @@ def normalize(src, dst):
                 continue
             ops = []
             okmut = 0
+            if "panic_at_quiescence" in h or any("panic" in o["r"] for o in h["ops"]):
+                panicked.append((n, h))
             for o in h["ops"]:
                 r = o["r"]
                 if o["op"] in ("add", "remove", "enable", "clear") and r["ok"]:
@@ -29,7 +32,7 @@ def normalize(src, dst):
             out.write(json.dumps({"init": h["init"], "ops": ops, "final": h["final"], "fget": h["fget"], "fcount": h["fcount"]}) + "\n")
             raw.append(h)
             n += 1
-    return n, hung, badv, raw
+    return n, hung, badv, raw, panicked
 
 
 def concurrent(ctx, nhist, batch=1000, screened=0):
@@ -52,7 +55,10 @@ def concurrent(ctx, nhist, batch=1000, screened=0):
             if info["written"] == 0:
                 continue
         norm = ctx.path("kbhist_%d.norm" % b)
-        n, hung, badv, raw = normalize(rec, norm)
+        n, hung, badv, raw, panicked = normalize(rec, norm)
+        for i, h in panicked:
+            ctx.failures.append({"model": "kb-concurrent", "kind": "panic", "label": {"history": b + i},
+                                 "actual": h, "allowed": ["every operation returns a value"]})
         for i in hung:
             ctx.failures.append({"model": "kb-concurrent", "kind": "hung", "label": {"history": b + i},
                                  "actual": "a thread did not finish within 20 s", "allowed": ["all operations return"]})
